@@ -407,7 +407,7 @@ def _call_slicer(mon, form, inp, in_lens, other_lens, policy, wt, valid, lobe):
     with warnings.catch_warnings():
         warnings.simplefilter("ignore")
         if form == "module":
-            out = mon.lib("SliceSpectData", lambda: M.SliceSpectData(policy, wt, valid, lobe)(inp, in_lens, other_lens))
+            out = mon.lib("SliceSpectData", lambda: LY.travelled(M.SliceSpectData(policy, wt, valid, lobe), lobe, len(wt), 0 if in_lens is None else int(in_lens.sum()))(inp, in_lens, other_lens))
         else:
             out = mon.lib("slice_spect_data", lambda: F.slice_spect_data(inp, in_lens, other_lens, policy, wt, valid, lobe))
     import torch
@@ -500,7 +500,7 @@ def _call_chunker(mon, form, refs, slices, ref_lens, partial, retain):
         warnings.simplefilter("ignore")
         if form == "module":
             out = mon.lib("ChunkTokenSequencesBySlices",
-                          lambda: M.ChunkTokenSequencesBySlices(partial, retain)(refs, slices, ref_lens))
+                          lambda: LY.travelled(M.ChunkTokenSequencesBySlices(partial, retain), refs.numel(), slices.numel())(refs, slices, ref_lens))
         else:
             out = mon.lib("chunk_token_sequences_by_slices",
                           lambda: F.chunk_token_sequences_by_slices(refs, slices, ref_lens, partial, retain))
